@@ -305,6 +305,13 @@ pub fn grid_cases(tier: Tier) -> Vec<PuCase> {
                                 v.push(PuCase { setup: setup_r.clone(), op: prov(A, sh) });
                             }
                         }
+                        // a deposit after which every reserve holds the same number of raw units (mixed decimals: far from balanced
+                        // in value), each amount within 1 % of the first in normalised terms where that is possible
+                        if nn == 2 && decs[0] != decs[1] && skew == 1 {
+                            let target = res.iter().max().unwrap() + res.iter().max().unwrap() / 200 + 1;
+                            let sh: Vec<(String, u128)> = funds0.iter().map(|(d, r)| (d.clone(), target - r)).collect();
+                            v.push(PuCase { setup: setup.clone(), op: prov(A, sh) });
+                        }
                         let mut s2 = setup.clone();
                         s2.push(prov(A, funds0.iter().map(|(d, r)| (d.clone(), r / 2 + 1)).collect()));
                         let maxd = *decs.iter().max().unwrap() as u32;
@@ -314,6 +321,27 @@ pub fn grid_cases(tier: Tier) -> Vec<PuCase> {
                         }
                     }
                 }
+            }
+        }
+    }
+    // mixed-decimals stableswap pools imbalanced by about the decimals gap, and the value-balanced deposit after which both
+    // reserves hold exactly the same number of raw units
+    for amp in [1u64, 100, 5000] {
+        for (decs, a) in [(vec![6u8, 8u8], 500_000u128), (vec![8, 6], 500_000), (vec![6, 9], 7_000), (vec![6, 8], 1)] {
+            let (lo, hi) = if decs[0] < decs[1] { (0usize, 1usize) } else { (1, 0) };
+            let gap = 10u128.pow((decs[hi] - decs[lo]) as u32);
+            let r = 2 * a * gap + 1_000 * gap;
+            let mut res = vec![0u128; 2];
+            res[lo] = r - a;
+            res[hi] = r - a * gap;
+            let mut dep = vec![0u128; 2];
+            dep[lo] = a;
+            dep[hi] = a * gap;
+            let dn: Vec<&str> = DN[..2].to_vec();
+            let f0: Vec<(String, u128)> = dn.iter().zip(&res).map(|(d, x)| (d.to_string(), *x)).collect();
+            let fd: Vec<(String, u128)> = dn.iter().zip(&dep).map(|(d, x)| (d.to_string(), *x)).collect();
+            for f in &feesets[..2] {
+                v.push(PuCase { setup: vec![mkpool(f, &dn, &decs, Some(amp)), prov(OWNER, f0.clone())], op: prov(A, fd.clone()) });
             }
         }
     }
@@ -332,7 +360,7 @@ fn eval(w: &mut crate::world::World, case: &PuCase, rec: &mut Rec) -> bool {
 }
 
 pub fn jobs(tier: Tier) -> Vec<Job> {
-    let full = PuChecker { name: "c02-pu-full".into(), seeds: vec!["S0", "S1", "S2", "S2r", "S3", "S4", "S6"], alpha: Alpha::Full, oracles: vec![oracle] };
+    let full = PuChecker { name: "c02-pu-full".into(), seeds: vec!["S0", "S1", "S2", "S2r", "S3", "S4", "S6", "S7"], alpha: Alpha::Full, oracles: vec![oracle] };
     let core = PuChecker { name: "c02-pu-core".into(), seeds: vec!["S2", "S4"], alpha: Alpha::Core, oracles: vec![oracle] };
     vec![
         explore_job(full, tier.pick(2, 3), Caps::default()),
